@@ -169,6 +169,12 @@ def call_value(folder: "Folder", f: Any, args: list, kwargs: Optional[dict] = No
         from .absint import Raised
 
         raise Raised("TypeError", ast.Constant(value=None))
+    if (f is str or f is repr) and len(args) == 1 and not kwargs and type(args[0]).__name__ == "AObj":
+        # `map(str, xs)`, `key=repr`: the text of an instance is what its class's own method says
+        t_ = _abs_text(folder, args[0], "__str__" if f is str else "__repr__")
+        if isinstance(t_, str):
+            return t_
+        raise Unfoldable("text of %r" % (args[0],))
     if callable(f):
         return f(*args, **kwargs)
     raise Unfoldable("not callable: %r" % (f,))
@@ -937,6 +943,20 @@ class Folder:
                     return getattr(bytes(recv), m)(*[self.fold(a) for a in args])
                 if isinstance(recv, str) and m in ("split", "rsplit", "startswith", "endswith", "count", "replace", "join", "isdigit", "isascii", "isdecimal", "strip", "lstrip", "rstrip", "isspace", "splitlines", "partition", "rpartition", "find", "rfind", "removeprefix", "removesuffix", "lower", "upper", "casefold", "title", "isalpha", "isalnum", "isidentifier", "islower", "isupper"):
                     return getattr(recv, m)(*[self.fold(a) for a in args])
+                if type(recv).__name__ == "Decimal" and type(recv).__module__ == "decimal" and not m.startswith("_"):
+                    import decimal as _dec
+
+                    vals_d = [self.fold(a) for a in args]
+                    if any(isinstance(v_, Abstract) for v_ in vals_d):
+                        raise Unfoldable(unparse(e))
+                    from .absint import Raised
+
+                    try:
+                        return getattr(recv, m)(*vals_d)
+                    except _dec.DecimalException as ex_d:
+                        raise Raised(type(ex_d).__name__, e)
+                    except (ValueError, TypeError, OverflowError) as ex_d:
+                        raise Raised(type(ex_d).__name__, e)
                 if (isinstance(recv, str) and m == "encode") or (isinstance(recv, (bytes, bytearray)) and m == "decode"):
                     try:
                         return getattr(recv, m)(*[self.fold(a) for a in args], **{k.arg: self.fold(k.value) for k in e.keywords if k.arg in ("encoding", "errors")})
@@ -1058,6 +1078,13 @@ class Folder:
         if name == "hasattr" and len(args) == 2:
             v = self.fold(args[0])
             a = self.fold(args[1])
+            if isinstance(v, _TypeOf):
+                v = v.cls
+            if isinstance(v, ClassInfo) and isinstance(a, str) and self.repo is not None:
+                return self.repo.lookup_method(v, a) is not None or self.repo.lookup_class_attr(v, a) is not None or any(isinstance(k_, ClassInfo) and a in k_.inner for k_ in self.repo.mro(v))
+            if type(v).__name__ == "AObj" and isinstance(a, str) and "_kind_" not in v.__dict__:
+                r_ = v._ctx_.repo
+                return a in v.__dict__ or r_.lookup_method(v._cls_, a) is not None or r_.lookup_class_attr(v._cls_, a) is not None
             if isinstance(v, Abstract):
                 try:
                     return hasattr(v, a)
@@ -1129,6 +1156,21 @@ class Folder:
         if name in ("fractions.Fraction", "Fraction", "frac"):
             vals = [self.fold(a) for a in args]
             return Fraction(*vals)
+        if name in ("decimal.Decimal", "Decimal") and name.split(".")[0] not in self.env and not e.keywords:
+            # the standard decimal type is a value of the host language: computed, with the default context, as Python does
+            import decimal as _dec
+
+            vals = [self.fold(a) for a in args]
+            if any(isinstance(v_, Abstract) for v_ in vals):
+                raise Unfoldable(unparse(e))
+            from .absint import Raised
+
+            try:
+                return _dec.Decimal(*vals)
+            except _dec.DecimalException as ex_d:
+                raise Raised(type(ex_d).__name__, e)
+            except (ValueError, TypeError) as ex_d:
+                raise Raised(type(ex_d).__name__, e)
         if name in ("dict.fromkeys", "collections.OrderedDict.fromkeys") and len(args) in (1, 2):
             fill_ = self.fold(args[1]) if len(args) == 2 else None
             d0: Dict[Any, Any] = {}
@@ -1156,6 +1198,16 @@ class Folder:
             from .absint import Raised
 
             raise Raised("TypeError", e)
+        if name == "chr" and len(args) == 1 and "chr" not in self.env:
+            v = self.fold(args[0])
+            if isinstance(v, Abstract):
+                raise Unfoldable(unparse(e))
+            from .absint import Raised
+
+            try:
+                return chr(v)
+            except (ValueError, OverflowError, TypeError) as ex_c:
+                raise Raised(type(ex_c).__name__, e)
         if name == "repr" and len(args) == 1:
             v = self.fold(args[0])
             t_ = _abs_text(self, v, "__repr__")
@@ -1211,6 +1263,10 @@ class Folder:
             if (callable(f) and isinstance(f, Abstract)) or isinstance(f, _Partial) or type(f).__name__ == "_BoundMethod":
                 res = [call_value(self, f, [v]) for v in vals]  # a rule-modelled callable / a bound method of an abstract instance
                 return res if name == "map" else [v for v, k in zip(vals, res) if k]
+            if f in (str, repr, int, bool, len, abs, float) and name == "map":
+                if any(isinstance(v, Abstract) and type(v).__name__ != "AObj" for v in vals) or (f not in (str, repr) and any(isinstance(v, Abstract) for v in vals)):
+                    raise Unfoldable(unparse(e))
+                return [call_value(self, f, [v]) for v in vals]
             raise Unfoldable(unparse(e))
         if name in ("functools.reduce", "reduce") and len(args) in (2, 3):
             f = self.fold(args[0])
